@@ -364,6 +364,24 @@ int main(void) {
             if (!ZSTD_isError(r)) r = ZSTD_compressSequences(cctx, exact, cap, sv, ns, in, n);
             if (ZSTD_isError(r)) printf("err %s\n", zv_errclass(r)); else printf("ok %zu%s\n", r, r > cap ? " RETURNED-MORE-THAN-CAPACITY" : "");
             free(in); free(sv); free(exact);
+        } else if (!strcmp(op, "sireset")) {
+            /* sireset <mode 0|1> <first> <hex-src> : ZSTD_c_stableInBuffer session abandoned after one small ZSTD_e_continue call (its input is deferred),
+             * ZSTD_CCtx_reset (0: session only, 1: session and parameters), then the whole source through ZSTD_compress2 from an exact-size buffer;
+             * the frame must decode to the source */
+            int mode = atoi(strtok(NULL, " ")); size_t first = (size_t)strtoull(strtok(NULL, " "), NULL, 10), n; unsigned char* in = zv_unhex(strtok(NULL, " "), &n);
+            size_t cap = ZSTD_compressBound(n) + 64, r; unsigned char* out = (unsigned char*)malloc(cap); unsigned char* back = (unsigned char*)malloc(n ? n : 1);
+            unsigned char* tmp = (unsigned char*)malloc(first ? first : 1); ZSTD_inBuffer ib; ZSTD_outBuffer ob = { out, cap, 0 };
+            if (first > n) first = n; memcpy(tmp, in, first); ib.src = tmp; ib.size = first; ib.pos = 0;
+            ZSTD_CCtx_reset(cctx, ZSTD_reset_session_and_parameters);
+            ZSTD_CCtx_setParameter(cctx, ZSTD_c_stableInBuffer, 1);
+            r = ZSTD_compressStream2(cctx, &ob, &ib, ZSTD_e_continue);
+            if (!ZSTD_isError(r)) r = ZSTD_CCtx_reset(cctx, mode ? ZSTD_reset_session_and_parameters : ZSTD_reset_session_only);
+            if (!ZSTD_isError(r) && !mode) r = ZSTD_CCtx_setParameter(cctx, ZSTD_c_stableInBuffer, 0);
+            if (!ZSTD_isError(r)) r = ZSTD_compress2(cctx, out, cap, in, n);
+            if (ZSTD_isError(r)) printf("err %s\n", zv_errclass(r));
+            else { size_t d = ZSTD_decompress(back, n, out, r); printf("%s\n", (!ZSTD_isError(d) && d == n && !memcmp(back, in, n)) ? "ok" : "FAIL frame does not decode to the source"); }
+            ZSTD_CCtx_reset(cctx, ZSTD_reset_session_and_parameters);
+            free(in); free(out); free(back); free(tmp);
         } else if (!strcmp(op, "dcap")) {
             /* dcap <cap> <hex> : ZSTD_decompress into exact-size buffer + canary copy */
             size_t cap = (size_t)strtoull(strtok(NULL, " "), NULL, 10), n, i; unsigned char* in = zv_unhex(strtok(NULL, " "), &n);
